@@ -44,6 +44,15 @@ def run(F, rep, tier):
     import core
     import c14
     core.borrow(rep, c14.arrow, lambda o: o["rule"] == "ARROW" and o["key"] == "parser|rhs-level", F)
+    # the climbing loop decides by the next *token* alone: a test on the form of what has been parsed so far (a comparison followed
+    # by a comparison is "a mistake") rejects chains whose parenthesised form is accepted (shared with C14)
+    core.borrow(rep, c14.paren_transparent, lambda o: o["rule"] == "PARENS" and o["key"].startswith("parser|"), F)
+    # .. and the tree's grouping survives the emission: every operator is written with its own parentheses (shared with C01 / C06)
+    import c01
+    import c06
+    import irp
+    core.borrow(rep, lambda F_, r_: c01.pipe_rules(F_, r_, irp.Tables(F_)), lambda o: o["rule"] == "PIPE" and o["key"].startswith("emission|"), F)
+    core.borrow(rep, lambda F_, r_: c06.run(F_, r_, "quick"), lambda o: o["rule"] == "GRAMMAR" and o["key"].endswith("|self-delimiting"), F)
     # ---- ORDER
     adt = F.adt(PREC)
     order = [v["name"] for v in adt["variants"]]
